@@ -22,6 +22,15 @@ func TestMain(m *testing.M) { ev.Main(m, "C05") }
 type Case struct {
 	P      *model.Project `json:"project"`
 	Extras int            `json:"extras"` // number of valid unreferenced types added for the metamorphic part
+	Esc    []int          `json:"esc,omitempty"` // non-empty: one character of every quoted type name is spelled \uXXXX (which one: this stream)
+}
+
+// layout: the canonical layout, or the canonical layout with escapes inside the quoted type names
+func (c Case) layout() *model.Layout {
+	if len(c.Esc) == 0 {
+		return nil
+	}
+	return &model.Layout{Esc: 1, Seq: c.Esc}
 }
 
 var notFound = regexp.MustCompile(`"(@[A-Za-z0-9_-]+)"`)
@@ -46,7 +55,7 @@ func oracle(c Case) *ev.Verdict {
 	if p == nil || p.Root == nil {
 		return nil
 	}
-	tp := p.Text(nil)
+	tp := p.Text(c.layout())
 	ev.Guard("projects", c)
 	o := sut.Observe(tp)
 	ev.Unguard()
@@ -132,7 +141,7 @@ func oracle(c Case) *ev.Verdict {
 	if len(p.Withheld) > 0 && !usesAllOf {
 		full := p.Clone()
 		full.Withheld = nil
-		first := sut.Build(full.Text(nil))
+		first := sut.Build(full.Text(c.layout()))
 		ev.Guard("projects", c)
 		of := sut.ObserveBuilt(first)
 		second := sut.BuildSharing(tp, first)
@@ -165,7 +174,7 @@ func oracle(c Case) *ev.Verdict {
 				n.Add("e", model.Ref("@extra0"))
 			}
 		}
-		o2 := sut.Observe(q.Text(nil))
+		o2 := sut.Observe(q.Text(c.layout()))
 		for n := range o2.TypeOpenAPI {
 			if strings.HasPrefix(n, "@extra") {
 				delete(o2.TypeOpenAPI, n)
@@ -283,6 +292,16 @@ func addReference(t *rapid.T, obj *model.Node, i int, pl pool, label string) {
 	case 6:
 		obj.Add(key, model.Arr().Item(model.Ref(pick(pl.any, "item"))))
 	case 7:
+		if rapid.Bool().Draw(t, label+"apempty") {
+			// an object without a single property, which only says what further properties look like
+			e := model.Obj(model.R("additionalProperties", model.Str(pick(pl.any, "ap"))))
+			if rapid.Bool().Draw(t, label+"apitem") {
+				obj.Add(key, model.Arr().Item(e))
+			} else {
+				obj.Add(key, e)
+			}
+			return
+		}
 		if !obj.HasRule("additionalProperties") && !obj.HasRule("allOf") {
 			obj.Rules = append(obj.Rules, model.R("additionalProperties", model.Str(pick(pl.any, "ap"))))
 		}
@@ -369,7 +388,11 @@ func genCase(t *rapid.T) Case {
 			}
 		}
 	}
-	return Case{P: p, Extras: rapid.IntRange(0, 3).Draw(t, "extras")}
+	c := Case{P: p, Extras: rapid.IntRange(0, 3).Draw(t, "extras")}
+	if rapid.IntRange(0, 3).Draw(t, "escaped") == 0 {
+		c.Esc = rapid.SliceOfN(rapid.IntRange(0, 11), 2, 8).Draw(t, "esc")
+	}
+	return c
 }
 
 func judged(c Case) *ev.Verdict {
@@ -438,6 +461,12 @@ var shapes = []shape{
 	}},
 	{"additionalProperties", "obj", "any", func(n string, d int) *model.Node {
 		return model.Obj(model.R("additionalProperties", model.Str(n))).Add(fmt.Sprintf("p%d", d), model.Scalar("integer", "1"))
+	}},
+	{"additionalProperties-no-property", "obj", "any", func(n string, d int) *model.Node {
+		return model.Obj(model.R("additionalProperties", model.Str(n)))
+	}},
+	{"additionalProperties-nested-no-property", "obj", "any", func(n string, d int) *model.Node {
+		return model.Obj().Add(fmt.Sprintf("p%d", d), model.Arr().Item(model.Obj(model.R("additionalProperties", model.Str(n)))))
 	}},
 	{"allOf", "obj", "obj", func(n string, d int) *model.Node {
 		return model.Obj(model.R("allOf", model.Str(n))).Add(fmt.Sprintf("own%d", d), model.Scalar("integer", "1"))
@@ -509,6 +538,9 @@ func TestPropPositions(t *testing.T) {
 				p.Withheld = []string{names[withheld]}
 			}
 			c := Case{P: p}
+			if idx%3 == 0 {
+				c.Esc = []int{idx % 5, idx % 2, idx % 7}
+			}
 			n++
 			if withheld > 0 {
 				nt++
